@@ -41,6 +41,9 @@ let main () =
   let bg (x : BinNums.coq_Z) : BinNums.coq_Z = zi fillw in
   let hid = { TbModel.hp_clk = (!h land 1 <> 0); hp_rst = (!h land 2 <> 0); hm_clk = (!h land 4 <> 0); hm_rst = (!h land 8 <> 0) } in
   let ini = { TbModel.i_pc = zi !pc; i_areg = zi !a; i_breg = zi !b; i_oreg = zi !o; i_bg = bg; i_hidden = hid } in
+  if not (TbModel.file_loads bytes) then begin
+    (* load() throws: main prints the error and returns 1 without running *)
+    P.printf "END loaderror\nRC 1\nCONSUMED 0\nOUT 0\nSTATE pc=0 areg=0 breg=0 oreg=0 image_intact=0 time=0 cycles=0\n"; exit 0 end;
   let st0 = TbModel.power_on ini bytes in
   (* planted memory words (after load, as the harness does) *)
   let st0 = SL.fold_left (fun st (w, v) -> TbModel.set_tmem st (WMap.wr st.TbModel.t_s.RtlSem.r_mem (zi w) (zi v))) st0 (SL.rev !mems) in
@@ -76,12 +79,13 @@ let mon_main () =
   let file = C02drv.read_file bin in
   let len = SS.length file in
   let byte i = if i < len then Char.code (SS.get file i) else 0 in
-  let hw = byte 0 lor (byte 1 lsl 8) lor (byte 2 lsl 16) lor (byte 3 lsl 24) in
+  ignore byte;
   let bytes = SL.init len (fun i -> zi (Char.code (SS.get file i))) in
-  let all_words = TbModel.loaded_words bytes in
-  let nall = SL.length all_words in
-  let hw = min hw nall in
-  let ws = SL.filteri (fun i _ -> i < hw) all_words in
+  if not (TbModel.file_loads bytes) then begin
+    P.printf "END rejected-by-the-loader\nRC 1\nCONSUMED 0\nOUT 0\nSTEPS 0\nWB 1\n"; exit 0 end;
+  (* the words both loaders read: those the header announces (TbModel.loaded_words); the defined region is exactly them *)
+  let ws = TbModel.loaded_words bytes in
+  let hw = SL.length ws in
   let cons = let bf = Buffer.create 64 in (try while true do Buffer.add_channel bf stdin 1 done with End_of_file -> ()); Buffer.contents bf in
   let ncons = SS.length cons in
   let inp = ref { Isa.console = SL.init ncons (fun i -> zi (Char.code (SS.get cons i))); Isa.files = (fun _ -> []) } in
